@@ -42,7 +42,8 @@ def run_sx(job, res):
     import bitcoinlib.wallets, bitcoinlib.blocks, bitcoinlib.services.services, bitcoinlib.mnemonic  # noqa: import before tracking
     stop = _track_functions(seen)
     ex = core.Explorer(W=job.W, max_paths=job.max_paths, timeout_ms=job.timeout_ms, allow_symmul=job.allow_symmul,
-                       budget_s=job.budget_s)
+                       budget_s=job.budget_s, incremental=job.incremental)
+    ex.optimistic = job.optimistic
     if job.setup:
         job.setup(ex)
     status = 'ok'
